@@ -60,8 +60,16 @@ class Ctx:
 
 
 def run(cmd, cwd=None, env=None, timeout=1800, input=None):
-    p = subprocess.run(cmd, cwd=cwd, env=env, stdout=subprocess.PIPE, stderr=subprocess.STDOUT, timeout=timeout, text=True, input=input)
-    return p.returncode, p.stdout
+    """run a command; a command that does not finish within the timeout is killed and reported with exit code 124 (a hung
+    driver — typically a deadlock in the code under test — must become a violation, never an exception of the check)"""
+    try:
+        p = subprocess.run(cmd, cwd=cwd, env=env, stdout=subprocess.PIPE, stderr=subprocess.STDOUT, timeout=timeout, text=True, input=input)
+        return p.returncode, p.stdout
+    except subprocess.TimeoutExpired as e:
+        out = e.stdout or ""
+        if isinstance(out, bytes):
+            out = out.decode("utf-8", "replace")
+        return 124, out + "\nTIMEOUT: %s did not finish within %ds and was killed" % (os.path.basename(str(cmd[0])), timeout)
 
 
 # ---------------------------------------------------------------- Coq
